@@ -9,7 +9,8 @@ EXPLANATION = ("C16 (narrow): websocket frame checks (minimal length encoding, m
                "to 125 bytes both ways; client frames are masked and server frames are not; the chunk decoder covers every "
                "state, guards its multiplication and allocation; the line scanner indexes only below n; the buffer "
                "bookkeeping of the HTTP reader advances all cursors of one transfer by the same count. Segmentation "
-               "independence and exact reassembly are value-level and not decided.")
+               "independence and exact reassembly are value-level and not decided."
+               " Also: control frames leave the reassembly flag alone (R9); a request refused on a kept connection has its body accounted for (R10).")
 
 WS = "supplemental/websocket/websocket.c"
 
